@@ -575,3 +575,56 @@ def nested_stream(run, drv):
                 run.oracle_fail("cat", case, f"content {str(tl)[:150]} expected {str(want)[:150]}", fingerprint="cat:content")
             else:
                 run.oracle_ok("cat")
+
+
+# --------------------------------------------------------------------------- in-place update of an entry
+def update_entry_stream(run, drv):
+    """in-place update of a non-tensor entry by another of the same batch shape, random representations on both sides: entry level
+    (`dest.update_(src)`, `dest.update(src, inplace=True)`) and through the holder (`td.set("a", src, inplace=True)`): the REPRESENTATION
+    of the updated entry (or the refusal) against the model `updateNT`; when it succeeds the content must be the source's."""
+    n = 700 if run.tier == "quick" else 5000
+    reqs, pend = [], []
+    for _ in range(n):
+        shape = N.gen_shape(run.rng, 3)
+        a = N.gen_array(run.rng, shape, constant=True if run.rng.random() < 0.4 else None)
+        a2 = N.gen_array(run.rng, shape, constant=True if run.rng.random() < 0.4 else None)
+        spec, spec2 = N.represent(a, run.rng), N.represent(a2, run.rng)
+        how = run.rng.choice(["update_", "update(inplace)", "set(inplace)"])
+        if how == "set(inplace)" and nested(a) == nested(a2):
+            how = "update_"          # (the holder leaves an entry alone when the new content equals the old: nothing reaches the entry)
+        case = {"op": how, "dest": str(spec), "src": str(spec2)}
+        try:
+            with time_limit(10):
+                dest, src = N.build(spec), N.build(spec2)
+                if how == "update_":
+                    dest.update_(src)
+                elif how == "update(inplace)":
+                    dest.update(src, inplace=True)
+                else:
+                    td = N.holder(dest, shape)
+                    td.set("a", src, inplace=True)
+                    dest = td.get("a")
+            impl = ["ok", N.read(dest)]
+            tl = N.tolist_ids(dest) if shape else N.id_of(dest.data)
+        except TimeoutError:
+            raise
+        except Exception as ex:  # noqa: BLE001
+            impl = ["err", impl_err(ex), str(ex)[:80]]
+            tl = None
+        run.case(("update-entry", how, str(spec), str(spec2)), nontrivial=has_stack(spec) or has_stack(spec2))
+        run.count("update_entry.outcome", f"{how}:{impl[0]}")
+        reqs.append(sx("c16.update", N.to_sx(spec), N.to_sx(spec2)))
+        pend.append((case, impl, tl, nested(a2) if shape else a2.item()))
+    for (case, impl, tl, want), ans in zip(pend, ask(drv, reqs)):
+        m = parse_sx(ans)
+        model = ["ok", N.from_parsed(m[1])] if m[0] == "ok" else ["err"]
+        run.corr("update(entry, in place)(representation)", case, impl[:2] if impl[0] == "ok" else ["err"], model)
+        if impl[0] == "ok":
+            if tl != want:
+                run.oracle_fail("update-entry", case, f"content {str(tl)[:150]} expected {str(want)[:150]}", fingerprint=f"update-entry:{case['op']}:content")
+            else:
+                run.oracle_ok("update-entry")
+        else:
+            # an array of objects can always be overwritten by another of the same shape: a refusal depends on how the two entries
+            # happen to be represented (a shared node of the destination facing a stacked part of the source)
+            run.oracle_fail("update-entry", case, f"same batch shape, yet the in-place update is refused: {impl[2]}", fingerprint=f"update-entry:{case['op']}:refused")
